@@ -237,15 +237,26 @@ func (w *Worktree) Checkout(opts *CheckoutOptions) error {
 		}
 	}
 
-	if opts.Create {
-		if err := w.createBranch(opts); err != nil {
+	// Resolve the start point before the branch is created, so that a
+	// missing or non-commit object does not leave a dangling branch behind.
+	if opts.Create && opts.Hash.IsZero() {
+		ref, err := w.r.Head()
+		if err != nil {
 			return err
 		}
+
+		opts.Hash = ref.Hash()
 	}
 
 	c, err := w.getCommitFromCheckoutOptions(opts)
 	if err != nil {
 		return err
+	}
+
+	if opts.Create {
+		if err := w.createBranch(opts); err != nil {
+			return err
+		}
 	}
 
 	ro := &ResetOptions{
